@@ -105,14 +105,14 @@ func c19Case(f []string) (out string) {
 	}()
 	switch f[0] {
 	case "solicit6":
-		// solicit6 serverduid clientmsg addr prefix ones nctxdns dns.. ppref pvalid npdns dns.. nia {cidr pref valid nopts {code,enc,val/..}..}.. npd {cidr pref valid}..
+		// solicit6 serverduid clientmsg relayinfo addr prefix ones nctxdns dns.. ppref pvalid npdns dns.. nia {cidr pref valid nopts {code,enc,val/..}..}.. npd {cidr pref valid}..
 		// pkg/dhcp.ResolveV6 (address / prefix already chosen, no registry) then the real Provider.HandlePacket on a fresh provider
 		allocator.ResetGlobalRegistry()
-		ctx := &allocator.Context{IPv6Address: c19IP(f[3])}
-		if f[4] != "nil" {
-			ctx.IPv6Prefix = &net.IPNet{IP: c19IP(f[4]), Mask: net.CIDRMask(int(c19U(f[5])), 128)}
+		ctx := &allocator.Context{IPv6Address: c19IP(f[4])}
+		if f[5] != "nil" {
+			ctx.IPv6Prefix = &net.IPNet{IP: c19IP(f[5]), Mask: net.CIDRMask(int(c19U(f[6])), 128)}
 		}
-		k := 6
+		k := 7
 		n := int(c19U(f[k]))
 		k++
 		for i := 0; i < n; i++ {
@@ -154,12 +154,37 @@ func c19Case(f []string) (out string) {
 			ianaPools: map[string]*IANAPool{}, pdPools: map[string]*PDPool{},
 			ianaLeases: map[string]*IANALease{}, pdLeases: map[string]*PDLease{},
 			leasesByAddr: map[string]*IANALease{}, leasesByPfx: map[string]*PDLease{}}
-		resp, err := p.HandlePacket(context.Background(), &dhcp6msg.Packet{SessionID: "s1", Raw: c19Hex(f[2]), Resolved: res})
+		var ri *dhcp6msg.RelayInfo
+		if f[3] != "nil" {
+			q := strings.Split(f[3], ",")
+			ri = &dhcp6msg.RelayInfo{HopCount: uint8(c19U(q[0])), LinkAddr: c19IP(q[1]), PeerAddr: c19IP(q[2]), InterfaceID: c19Hex(q[3])}
+		}
+		mk := func() *dhcp6msg.Packet {
+			return &dhcp6msg.Packet{SessionID: "s1", Raw: c19Hex(f[2]), Resolved: res, RelayInfo: ri}
+		}
+		resp, err := p.HandlePacket(context.Background(), mk())
 		if err != nil || resp == nil {
 			return "noresp"
 		}
-		m, _ := dhcp6msg.ParseMessage(resp.Raw)
-		return c19Show(resp.Raw) + " ; " + c19Msg(m)
+		first := append([]byte(nil), resp.Raw...)
+		// the same message again on the SAME provider (client retry: the already-reserved fast path for SOLICIT) must give the same answer
+		retry := "same"
+		resp2, err2 := p.HandlePacket(context.Background(), mk())
+		if err2 != nil || resp2 == nil {
+			retry = "noresp"
+		} else if c19Show(resp2.Raw) != c19Show(first) {
+			retry = c19Show(resp2.Raw)
+		}
+		inner := first
+		if ri != nil {
+			if u := dhcp6msg.UnwrapRelayReply(first); u != nil {
+				inner = u.Raw
+			} else {
+				return c19Show(first) + " ; nounwrap ; retry=" + retry
+			}
+		}
+		m, _ := dhcp6msg.ParseMessage(inner)
+		return c19Show(first) + " ; " + c19Msg(m) + " ; retry=" + retry
 	case "resp6":
 		// resp6 type txid client server iana pd ndns dns.. nextras extras..
 		p := &Provider{coreConfig: &config.Config{}, serverDUID: c19Hex(f[4])}
